@@ -100,9 +100,9 @@ def main():
         'setup_cmd': './setup.sh',
         'hooks': {
             'guard': 'sv_parser_verif',
-            'enable': 'RUSTFLAGS="--cfg sv_parser_verif" (set by lib/build.py when it builds svreplay against /repo)',
+            'enable': 'RUSTFLAGS="--cfg sv_parser_verif" (set by lib/build.py when it builds svreplay against /repo; the MIR dump of the sv-parser crate is taken with `--cfg sv_parser_verif` passed to that crate only, so that the instantiations of unwrap_node!/unwrap_locate! have bodies)',
             'baseline_off_cmd': 'cd /repo && cargo test --workspace --no-fail-fast --offline',
-            'source_commits': ['1624b8e'],
+            'source_commits': ['1624b8e', '9308565'],
             'add_only': True,
         },
         'engines': [
